@@ -511,6 +511,8 @@ pub fn recsoup(rng: &mut Rng, i: u64, opts: &Opts) -> Vec<History> {
     for k in 0..s.len() {
         let after_osc = (k >= 1 && s[k - 1] == 0x9d) || (k >= 2 && s[k - 2] == 0x1b && s[k - 1] == 0x5d);
         if after_osc && (s[k] == 0x52 || s[k] == 0x70 || s[k] == 0x50) { s[k] = 0x32; }
+        // OSC 0/1/2 not followed by `;` is outside the statement of C19: make it well-formed
+        if after_osc && (0x30..=0x32).contains(&s[k]) && k + 1 < s.len() && s[k + 1] != 0x3b { s[k + 1] = 0x3b; }
     }
     let mut evs = Vec::new();
     let cuts = cut_points(rng, s.len(), 3);
